@@ -739,6 +739,8 @@ def key_expr(e):
     elif e.__class__ == ExprCond:
         return [ 2, key_expr(e.cond), key_expr(e.src1), key_expr(e.src2) ]
     elif e.__class__ == ExprMem:
+        if isinstance(e.segm, Expr):
+            return [ 3, key_expr(e.arg), e.size, key_expr(e.segm) ]
         return [ 3, key_expr(e.arg), e.size ]
     elif e.__class__ == ExprOp:
         return [ 4, e.op ] + [ key_expr(e) for e in e.args ]
